@@ -526,6 +526,7 @@ SITES = {
     "geometry": sites.Site("geometry", "prop", geom_check),
     "map_data_item": sites.Site("map_data_item", "prop", item_check),
     "live_views": sites.Site("live_views", "prop", xmap_views.views_read_check),
+    "same_name": sites.Site("same_name", "prop", xmap_views.same_name_check),
 }
 
 
@@ -598,6 +599,13 @@ def generate_views(ctx):
         c = xmap_views.gen_views_case(rng, assign=False)
         ctx.count("live_views", ("lv", i, tuple(c["shape"]), tuple(c["order"])))
         yield "live_views", c
+    # selection by a name that several phases carry
+    for i in range(12 if ctx.tier == "quick" else 120):
+        n = int(rng.integers(4, 10))
+        pid = [int(x) for x in rng.integers(-1 if i % 3 == 0 else 0, 3, n)]
+        c = {"phase_id": pid, "rename": [None, ["ferrite"], ["a", "b", "a"], ["x", "x", "y"]][i % 4], "tuple": bool(i % 5 == 0)}
+        ctx.count(f"same_name/{'unnamed' if c['rename'] is None else 'renamed'}", ("sn", i, tuple(pid)))
+        yield "same_name", c
 
 
 def run(ctx, status):
